@@ -247,7 +247,7 @@ def long_scripts(rng, tier):
         "IB 32901 60", "L 32990", "T", "LB 1 33000", "F", "IB 32961 30", "T", "LB 32900 100"]))
     s.append(("tomb", [
         "KR 20000 64", "R tomb", "F", "IB 1 18000", "DB 1 17000 1", "LB 1 18000", "IB 1 500", "LB 1 600", "T",
-        "LB 1 18000", "F", "IB 1 100", "UB 1 10 7", "T", "LB 1 200"]))
+        "LB 1 18000", "F", "IB 18001 100", "UB 18001 10 7", "T", "LB 18001 200"]))
     if tier == "thorough":
         for i in range(4):
             w = rng.choice([0, 256, 4096])
@@ -545,18 +545,20 @@ def run(prop, args):
     vf.tlc_trace = noting
     try:
         vf.validate_batches(chk, "GlyphTrace", traces_small, cfg=cfg_ref, parallel=8, timeout=1500, label="refined")
+        vf.log("C17: small-table trace validation done (%.0fs)" % (time.time() - chk.t0))
+        vf.validate_batches(chk, "GlyphMapTrace", traces_abs, cfg=cfg_abs, parallel=8, timeout=1500, label="abstract",
+                            xmx="6g")
     finally:
         vf.tlc_trace = orig
-    chk.extra["layout_model"] = ("every logged table state is the one the linear-probing model of GlyphCache.tla predicts"
+    chk.extra["layout_model"] = ("every logged table state / counter is the one the linear-probing + tombstone model of GlyphCache.tla predicts"
                                  if not notes else
-                                 "NOTE (not a violation): %d executions depart from the linear-probing layout model of "
-                                 "GlyphCache.tla; they were validated at the layout-independent level only; first: %s"
-                                 % (len(notes), notes[0][:200]))
+                                 "NOTE (not a violation): %d executions depart from the linear-probing / tombstone model of "
+                                 "GlyphCache.tla (%d in the table layout, %d in the tombstone bookkeeping of runs without "
+                                 "dumps); they were validated at the property level only; first at event %s"
+                                 % (len(notes), sum(1 for x in notes if "layout" in x),
+                                    sum(1 for x in notes if "tombstones" in x), notes[0][:60]))
     if notes:
         vf.log("C17: " + chk.extra["layout_model"])
-    vf.log("C17: small-table trace validation done (%.0fs)" % (time.time() - chk.t0))
-    vf.validate_batches(chk, "GlyphMapTrace", traces_abs, cfg=cfg_abs, parallel=8, timeout=1500, label="abstract",
-                        xmx="6g")
     save_scripts(chk, scripts, metas)
 
     if not args.keep and not chk.violations:
